@@ -525,11 +525,16 @@ func (txn *Txn) rollback() {
 func (txn *Txn) commit() {
 	defer txn.reset()
 
-	// Mark the dirty chunks from the updates
-	for _, u := range txn.updates {
-		u.RangeChunks(func(chunk commit.Chunk) {
-			txn.dirty.Set(uint32(chunk))
-		})
+	// Mark the dirty chunks from the updates. When a commit is replayed (or a chunk is
+	// restored) the chunk to apply is already marked and must be the only one: the
+	// buffers of a cloned commit still contain the operations of the other chunks of
+	// its transaction, which are (or were) replayed by their own commits.
+	if _, replay := txn.dirty.Min(); !replay {
+		for _, u := range txn.updates {
+			u.RangeChunks(func(chunk commit.Chunk) {
+				txn.dirty.Set(uint32(chunk))
+			})
+		}
 	}
 
 	// Grow the size of the fill list
